@@ -8,6 +8,7 @@ package c04
 
 import (
 	"bytes"
+	"crypto/sha256"
 	"fmt"
 
 	ct "github.com/google/certificate-transparency-go"
@@ -196,6 +197,23 @@ type STHSpec struct {
 	Timestamp uint64
 	TreeSize  uint64
 	Root      uint32
+	RootKind  int `json:",omitempty"` // 0: 32 bytes filled from Root; 1: all zero; 2: SHA-256("") (the empty tree's hash); 3: all 0xff
+}
+
+func (s STHSpec) root() [32]byte {
+	switch s.RootKind {
+	case 1:
+		return [32]byte{}
+	case 2:
+		return sha256.Sum256(nil)
+	case 3:
+		var r [32]byte
+		for i := range r {
+			r[i] = 0xff
+		}
+		return r
+	}
+	return hash32(s.Root)
 }
 
 func genEntry(t *rapid.T, label string, knownIn10 int, huge bool) EntrySpec {
